@@ -13,7 +13,8 @@ TRUSTED_BASE = [
     'tools/py2coq.py (translator of expression-level code; item list in theories/gen/translate_report.json)',
     'harness/vts.py virtual-time execution of the real code (assumptions A1-A6 of DESIGN.md section 3)',
     'correspondence by generated cases files evaluated with vm_compute (differential testing, not proof)',
-    'hand-written stateful models theories/*.v are tied to the code by correspondence only',
+    'hand-written stateful models theories/*.v are tied to the code by correspondence only (handler-log replay for the stacks; operation sequences for the DM14 serving and requesting sides)',
+    'generated skeletons (shared-access of the job passes, pool flow of send_pgn / FD job pass) rest on the AST walkers in tools/py2coq_ext.py',
     'CPython, python-can Message/Listener, numpy split, queue/threading semantics',
 ]
 ALLOWED_AXIOMS = ()   # the development is closed under the global context
